@@ -1,58 +1,8 @@
 # C08 – Router routes per handler: right function, right topic, unmodified outputs.
-import json
-import os
-
-_HERE = os.path.dirname(os.path.abspath(__file__))
-STALE = "stale-context-empty-field"
-
 
 def nontrivial(req, obs):
     # at least two handlers, and at least one Publish call or one no-publisher Nack was observed
     return req.count(" h=") >= 2 and ("@" in obs or "/N/-" in obs)
-
-
-def _stale_applies(req):
-    """True iff some message arrives with router keys already on its context at a handler whose corresponding
-    field is empty (the only situation the open finding describes)."""
-    subs, pubs, hs, ds = {}, {}, [], []
-    for t in req.split()[1:]:
-        k, _, v = t.partition("=")
-        if k == "h":
-            hs.append(v.split(":"))
-        elif k == "d":
-            ds.append(v.split(":"))
-        elif k.startswith("S"):
-            subs[k[1:]] = v
-        elif k.startswith("P"):
-            pubs[k[1:]] = v
-    for d in ds:
-        if len(d) != 5:
-            continue
-        keys = [e.split("_")[0] for e in d[4].split(".")]
-        for h in hs:
-            name, sub, st, spec, pt, _mw = h
-            if sub != d[0] or st != d[1]:
-                continue
-            pub_name = pubs.get(spec[1:], "x") if spec.startswith("p") else "x"   # np / nil: non-empty internal names
-            field = {"0": name, "1": pub_name, "2": subs.get(sub, "x"), "3": st, "4": pt if spec != "np" else "-"}
-            if any(field.get(k) == "-" for k in keys):
-                return True
-    return False
-
-
-def classify(req, obs, rule):
-    if rule in ("violated:ctx_in_handler", "violated:ctx_on_produced") and _stale_applies(req):
-        return STALE
-    return None
-
-
-def _finding_open():
-    try:
-        kf = json.load(open(os.path.join(_HERE, "..", "known-findings.json")))
-        return any(f.get("property") == "C08" and f.get("pattern") == STALE and f.get("status") == "open"
-                   for f in kf.get("findings", []))
-    except (OSError, ValueError):
-        return False
 
 
 PROP = {
@@ -60,9 +10,10 @@ PROP = {
     "lean_targets": ["WmModel.Props.C08", "WmModel.Props.C08Tie"],
     "audit_module": "Audit.C08",
     "theorems": [
-        "Wm.Route.ctx5_addHandlerContext", "Wm.Route.ctx5_addHandlerContext_idem", "Wm.Route.ctx_values_partial",
-        "Wm.Route.ctx_values_nonempty", "Wm.Route.stale_context_shows_through",
-        "Wm.Route.ctx_in_handler_partial", "Wm.Route.ctx_on_produced_partial",
+        "Wm.Route.ctx_values", "Wm.Route.ctx_get", "Wm.Route.ctx5_addHandlerContext_idem",
+        "Wm.Route.ctx_in_handler", "Wm.Route.ctx_on_produced",
+        # the defect repaired by fix 5846d09, kept as a witness over the Old model (WmModel/RouteOld.lean)
+        "Wm.Route.Old.stale_context_shows_through", "Wm.Route.Old.agrees_on_nonempty",
         "Wm.Route.handleOne_fn", "Wm.Route.publishes_only_own", "Wm.Route.published_iff",
         "Wm.Route.nopub_middleware_outputs_nack", "Wm.Route.routes_to_own_fn", "Wm.Route.route_order_irrelevant",
         "Wm.Route.only_own_function", "Wm.Route.subscriptions_bijective",
@@ -73,13 +24,9 @@ PROP = {
         "Wm.RouteGo.extracted_ctx_describes_empty",
     ],
     "harness": "c08",
-    # the cases that exhibit the finding are generated only once it is listed as open in known-findings.json
-    # (then they are reported as KNOWN-FINDING); until the integrator has decided they would be plain violations
-    "harness_args": ["-stale"] if _finding_open() else [],
     "race": True,
     "driver": "drv_c08",
     "nontrivial": nontrivial,
-    "classify": classify,
     "rule": "Router configurations against the real Router with scripted subscribers (a message arriving at (subscriber, topic) is "
             "handed, one fresh copy each, to every subscription made for that pair), recording publishers (topic, pointer identity, "
             "order, content snapshot, context of every message of every Publish call), handler functions tagged by handler and "
@@ -89,13 +36,16 @@ PROP = {
             "none, error, mixed) and optional middleware outputs; random: 5000 (quick) / 60000 (thorough) seeded configurations of "
             "1..6 handlers over 1..3 subscribers, publishers and topics (sharing allowed; empty, non-ASCII and look-alike names and "
             "topics; three Go types per side incl. fmt.Stringer with arbitrary names), 1..4 messages per listened (subscriber, "
-            "topic) in shuffled order, plus messages nobody listens to. Observation canonical per handler (Go map order in "
+            "topic) in shuffled order, plus messages nobody listens to, about 1 in 12 messages arriving with an upstream handler's "
+            "values already on its context; stale: 25 fixed cases - incoming context pre-loaded (through a real upstream Router) with "
+            "one, several or all five values of another handler, at handlers with all fields set, all fields empty, "
+            "AddNoPublisherHandler, nil publisher, empty publish topic. Observation canonical per handler (Go map order in "
             "RunHandlers is random). Oracles: model observation equality and the property monitor. Non-trivial = >= 2 handlers and "
             ">= 1 Publish call or no-publisher Nack.",
     "trusted_base": [
         "Lean 4.33.0 kernel; axioms per theorem listed under theorem_axioms (subset of propext, Classical.choice, Quot.sound)",
-        "extractor harness/cmd/extract/c08.go (go/ast: the set statements of handler.addHandlerContext, the key each of the five "
-        "accessors reads, the values of the key constants; 22 structural facts: AddHandler stores its parameters and computes the "
+        "extractor harness/cmd/extract/c08.go (go/ast: the set statements of handler.addHandlerContext with their guards if any, the "
+        "key each of the five accessors reads, the values of the key constants; 23 structural facts: five unconditional WithValue sets,  AddHandler stores its parameters and computes the "
         "type names from its own objects, RunHandlers subscribes h.subscriber on h.subscribeTopic and gives the channel to the same "
         "handler, handleMessage passes the returned slice untouched through addHandlerContext to one Publish(h.publishTopic, "
         "produced...) on h.publisher, guards for empty output / nil publisher, disabledPublisher) and the interpreter "
@@ -111,10 +61,8 @@ PROP = {
         "'unmodified' = the very objects the chain returned (pointer identity, repetitions kept) with UUID, payload and metadata "
         "as they were at return time; the message context is the one thing the router sets (clause 3 of the statement). The "
         "number of Publish calls is not fixed by the statement (the monitor concatenates them); the model has exactly one.",
-        "Incoming message contexts carry none of the router's five context keys (guard `Fresh` of the *_partial theorems). "
-        "Without it an empty field of the handler lets an upstream handler's value show through - finding "
-        "stale-context-empty-field, reproduced against the real code with `-stale`, witness theorem "
-        "Wm.Route.stale_context_shows_through.",
+        "A stale incoming context is produced the only way the unexported keys allow: the message passes a real one-handler "
+        "upstream Router first and the context its handler function sees is put on the incoming message.",
         "For a handler without publisher the publisher type name reported by the context (\"message.disabledPublisher\" / "
         "\"<nil>\") is compared with the model only; the monitor demands the other four values.",
         "Message objects are not shared between two handlers at the same time (that would be a data race on SetContext).",
@@ -123,8 +71,9 @@ PROP = {
                    "handler processes exactly the messages arriving at its (subscriber, topic), with its own function; "
                    "publishes_only_own / published_iff: at most one Publish per consumed message, on the handler's own publisher "
                    "and publish topic, carrying exactly the returned objects in order; nopub_middleware_outputs_nack; "
-                   "ctx5_addHandlerContext (exact law for any incoming context), ctx_values_nonempty, ctx_*_partial (fresh "
-                   "incoming context). The context code (set statements, accessors, key constants) is re-extracted on every run and "
+                   "ctx_values / ctx_in_handler / ctx_on_produced: for ANY incoming context (stale router values included) the five "
+                   "accessors report the handler's own values, empty ones as \"\"; Old.stale_context_shows_through keeps the defect "
+                   "repaired by fix 5846d09 as a witness over the old code's model. The context code (set statements, accessors, key constants) is re-extracted on every run and "
                    "proved to obey the same law as the model (tie theorems).",
     "level_text": "Machine-checked (Lean 4) theorems over an executable model of per-handler routing (subscription per handler in any "
                   "map order, handleMessage/publishProducedMessages decision, addHandlerContext and the five accessors) for all "
@@ -132,9 +81,9 @@ PROP = {
                   "obey the model's law on every run; model and an independent monitor are compared with the real Router on all "
                   "two-handler wirings and on random configurations of 1..6 handlers with interleaved streams.",
     "level_note": "Proved about the model, not about the Go code; the routing theorems are close to the model's definitions, the "
-                  "weight is on the correspondence (differential harness with pointer-identity recording publishers, 22 structural "
-                  "facts, generated context code + 4 tie theorems, -race). The context clause is proved under the guard of a fresh "
-                  "incoming context; the unguarded statement fails on the real code (open finding stale-context-empty-field).",
+                  "weight is on the correspondence (differential harness with pointer-identity recording publishers, 23 structural "
+                  "facts, generated context code + 4 tie theorems, -race). The context clause is proved without a guard on the "
+                  "incoming context (fix 5846d09); the pre-fix behaviour is kept as an Old witness model.",
     "technique": "Lean 4 theorems over a hand-written executable model + generated deep-embedded context code with tie theorems + "
                  "differential correspondence check against the Go code",
 }
